@@ -19,6 +19,18 @@ def handleUndo (st : St) (op : String) (j : Json) : Option (D (St × Json)) :=
     -- [guard, e (levels above the slice), n (levels merged through a slice node)]
     return (st, ok (Json.arr #[Json.bool (sidesCompatible S d f t sl),
       jn (depthAt d.kids f - sl.openStart), jn (singleDepth sl.content sl.openStart sl.openEnd)]))
+  | "aroundGuards" => some do
+    let S ← getSchema st j
+    let d ← node (← field j "doc")
+    let f ← nat (← field j "from")
+    let t ← nat (← field j "to")
+    let gf ← nat (← field j "gapFrom")
+    let gt ← nat (← field j "gapTo")
+    let sl ← slice (← field j "slice")
+    let ins ← nat (← field j "insert")
+    -- [fit guard, bridge guard of the inner replace]
+    return (st, ok (Json.arr #[Json.bool (gapFitsBack S d f t gf gt),
+      Json.bool (sidesCompatibleAround S d f t gf gt sl ins)]))
   | "compatTrans" => some do
     let S ← getSchema st j
     return (st, ok (Json.bool (compatTransB S)))
